@@ -9,6 +9,7 @@ package main
 // whether the vendored decoder gives the input back (direct predicate).
 
 import (
+	"strings"
 	"bytes"
 	"encoding/json"
 	"fmt"
@@ -577,6 +578,12 @@ type c16Obs struct {
 
 // c16Run drives the real encoder / calculator / decoder.
 func c16Run(c *c16Case) (in, obs []Ev, seen []c16Obs, fails [][2]string, skipped string) {
+	// a panic of the generated code / the protocol on an encoder's own output is a failing input
+	defer func() {
+		if p := recover(); p != nil {
+			fails = append(fails, [2]string{"decode_encode_is_identity", fmt.Sprintf("the encoder, the size calculator or the decoder panicked on this case: %v", p)})
+		}
+	}()
 	var fac thrift.TProtocolFactory = thrift.NewTCompactProtocolFactory()
 	if c.Proto == 1 {
 		fac = thrift.NewTBinaryProtocolFactoryDefault()
@@ -753,6 +760,25 @@ func c16Run(c *c16Case) (in, obs []Ev, seen []c16Obs, fails [][2]string, skipped
 							oi, op.G, x.what, x.size, c16Show(&x.m), len(enc), calc.GetCount()))
 					}
 				}
+				// "the size measured with maximal placeholder values is an upper bound": the same
+				// structure with the largest value and timestamp must not encode longer
+				mx := x.m
+				mx.Timestamp = math.MaxInt64
+				mx.Value.Count, mx.Value.Timer = x.m.Value.Count, x.m.Value.Timer
+				switch {
+				case x.m.Value.Count != 0 || strings.Contains(x.what, "counter") || strings.Contains(x.what, "bucket"):
+					mx.Value.Count = math.MinInt64
+				case x.m.Value.Timer != 0 || strings.Contains(x.what, "timer"):
+					mx.Value.Timer = math.MinInt64
+				}
+				wbuf.Reset()
+				mx.Write(wp)
+				if n := wbuf.Len(); n > int(x.size) && bad <= 3 {
+					bad++
+					fail("max_placeholder_size_is_upper_bound", fmt.Sprintf("op %d: %s: the reporter measured %d bytes for its pre-built %s, with an extreme value and timestamp it encodes to %d bytes",
+						oi, x.what, x.size, c16Show(&x.m), n))
+				}
+				wbuf.Reset()
 				if i%step == 0 || (!ok && bad <= 8) {
 					in = append(in, c16MetricEv(6, &x.m, nil, 0))
 					obs = append(obs, Ev{K: 6, I: []int64{int64(x.size)}, S: []string{string(enc)}})
